@@ -31,7 +31,7 @@ func histLetters(hist []string) (*scenario, []string) {
 }
 
 func txsOfLetter(letter string, h uint32) (types.Transactions, []string) {
-	exp := tExpBase + uint64(h)*16
+	exp := tExpBase + uint64(h)*32
 	if letter == fundLetter {
 		txs := fundTxs(exp)
 		names := make([]string, len(txs))
@@ -43,11 +43,11 @@ func txsOfLetter(letter string, h uint32) (types.Transactions, []string) {
 	var txs types.Transactions
 	names := blockTxNames(letter)
 	for i, n := range names {
-		l := tLetters[n]
+		l := letterOf(n)
 		if l == nil {
 			panic("no tx letter " + n)
 		}
-		txs = append(txs, l.mk(exp+uint64(i)))
+		txs = append(txs, l.mk(exp+8+uint64(i)))
 	}
 	return txs, names
 }
@@ -61,6 +61,7 @@ func runTermHistory(w *tworld, hist []string, r *core.Result) int {
 
 // runTermBlocks executes the blocks with index from..to-1 (index 0 = height 1) of the history.
 func runTermBlocks(w *tworld, sc *scenario, hist []string, from, to int, r *core.Result) int {
+	w.hist = hist
 	_, letters := histLetters(hist)
 	viol := func(fp, what string) {
 		r.Violate(prop+"/term/"+fp, what+"; history "+strings.Join(hist, " | "), termCase{Hist: hist})
@@ -113,7 +114,7 @@ func runTermBlocks(w *tworld, sc *scenario, hist []string, from, to int, r *core
 			if strings.Contains(err.Error(), "panic") || strings.Contains(err.Error(), "negative") {
 				viol("no-block/"+heightClass(h)+"/"+firstWords(err.Error(), 8), fmt.Sprintf("the miner cannot produce block %d [%s]: %v", h, letter, err))
 			} else {
-				r.Note("phase T: no block at height %d [%s] in %v: %v", h, letter, hist, err)
+				r.Note("phase T: the miner produced no block (%v) || height %d [%s] in %v", err, h, letter, hist)
 			}
 			if w.verbose {
 				w.trace = append(w.trace, fmt.Sprintf("h=%d [%s] NO BLOCK: %v", h, letter, err))
@@ -131,7 +132,7 @@ func runTermBlocks(w *tworld, sc *scenario, hist []string, from, to int, r *core
 			r.Add("term_validator_rejected(not asserted)", 1)
 			r.Outcome("T validator-rejected:" + firstWords(obs.rejected, 6))
 			if r.Counters["term_validator_rejected(not asserted)"] <= 3 {
-				r.Note("phase T: the node refused the factory's block %d [%s] (%s) in %v", h, letter, obs.rejected, hist)
+				r.Note("phase T: the node refused a block of the factory (%s) || block %d [%s] in %v", obs.rejected, h, letter, hist)
 			}
 			return blocks
 		}
@@ -245,20 +246,26 @@ func (w *tworld) checkBlock(h uint32, letter string, parent *types.Block, obs *b
 	// ---- transactions: fees, amounts, deposits paid, reward settings
 	fees := new(big.Int)
 	paid := map[common.Address]*big.Int{}
+	candState := map[common.Address]string{} // isCandidate as the block's transactions leave it
+	stateOf := func(a common.Address) string {
+		if s, ok := candState[a]; ok {
+			return s
+		}
+		if v, ok := pre[a]; ok {
+			return v.isCand
+		}
+		return w.stateAt(parent.Hash(), []common.Address{a})[a].isCand
+	}
 	var gasSum uint64
 	var packaged []string
-	for _, tx := range b.Txs {
-		name := nameByHash[tx.Hash()]
-		packaged = append(packaged, name)
+	hasBox := false
+	// one executed (sub-)transaction: its fee is gas x its own price, paid by its own payer
+	var account1 func(tx *types.Transaction, name string, gas uint64, failed bool)
+	account1 = func(tx *types.Transaction, name string, gas uint64, failed bool) {
 		l := tLetters[name]
-		if tx.GasUsed() > tx.GasLimit() {
-			viol("gas-used-exceeds-limit/"+name, fmt.Sprintf("block %d: %s used %d gas with limit %d", h, name, tx.GasUsed(), tx.GasLimit()))
-		}
-		gasSum += tx.GasUsed()
-		fee := new(big.Int).Mul(new(big.Int).SetUint64(tx.GasUsed()), tx.GasPrice())
+		fee := new(big.Int).Mul(new(big.Int).SetUint64(gas), tx.GasPrice())
 		fees.Add(fees, fee)
 		sub(tx.GasPayer(), fee)
-		failed := hasRunFail(b, tx.Hash())
 		kind := "other"
 		switch tx.Type() {
 		case params.OrdinaryTx:
@@ -273,25 +280,67 @@ func (w *tworld) checkBlock(h uint32, letter string, parent *types.Block, obs *b
 		case params.VoteTx:
 			kind = "vote"
 		case params.RegisterTx:
-			switch {
-			case isUnregisterTx(tx):
-				kind = "unregister"
-			case tx.Amount().Sign() > 0:
-				kind = "deposit"
-				// (a RegisterTx that fails is never packaged; a packaged one has paid its amount into the pool)
-				sub(tx.From(), tx.Amount())
+			// (a RegisterTx that fails is never packaged: the miner discards it, a validator refuses the block)
+			from := tx.From()
+			wantsOut := isUnregisterTx(tx)
+			payDeposit := func() {
+				sub(from, tx.Amount())
 				add(pool, tx.Amount())
-				if paid[tx.From()] == nil {
-					paid[tx.From()] = new(big.Int)
+				if paid[from] == nil {
+					paid[from] = new(big.Int)
 				}
-				paid[tx.From()].Add(paid[tx.From()], tx.Amount())
-			default:
-				kind = "profile-update"
+				paid[from].Add(paid[from], tx.Amount())
 			}
+			switch st := stateOf(from); {
+			case st == "":
+				// first registration: the amount is the deposit, whatever isCandidate says
+				kind = "register"
+				payDeposit()
+				if wantsOut {
+					candState[from] = types.NotCandidateNode
+				} else {
+					candState[from] = types.IsCandidateNode
+				}
+			case st == types.IsCandidateNode && wantsOut:
+				kind = "unregister" // the amount of an unregister transaction is not looked at
+				candState[from] = types.NotCandidateNode
+			case st == types.IsCandidateNode && tx.Amount().Sign() > 0:
+				kind = "top-up"
+				payDeposit()
+			case st == types.IsCandidateNode:
+				kind = "profile-update"
+			default:
+				kind = "register-after-unregister(packaged!)"
+			}
+		case params.BoxTx:
+			kind = "box"
 		}
 		if inWindow {
 			r.Add("term_tx/"+kind+"@"+hc, 1)
 		}
+	}
+	for _, tx := range b.Txs {
+		name := nameByHash[tx.Hash()]
+		packaged = append(packaged, name)
+		if tx.GasUsed() > tx.GasLimit() {
+			viol("gas-used-exceeds-limit/"+name, fmt.Sprintf("block %d: %s used %d gas with limit %d", h, name, tx.GasUsed(), tx.GasLimit()))
+		}
+		gasSum += tx.GasUsed()
+		own := tx.GasUsed()
+		if tx.Type() == params.BoxTx {
+			hasBox = true
+			box, err := types.GetBox(tx.Data())
+			if err != nil {
+				panic(err)
+			}
+			subNames := strings.Split(strings.TrimPrefix(name, "B:"), ";")
+			for i, st := range box.SubTxList {
+				// a packaged box is all or nothing: every sub-transaction was executed
+				account1(st, subNames[i], st.GasUsed(), hasRunFail(b, st.Hash()))
+				own -= st.GasUsed()
+			}
+		}
+		account1(tx, name, own, hasRunFail(b, tx.Hash()))
 	}
 	if obs.discards > 0 {
 		r.Add("term_discarded_txs", int64(obs.discards))
@@ -361,6 +410,18 @@ func (w *tworld) checkBlock(h uint32, letter string, parent *types.Block, obs *b
 			r.Add("term_reward_block/setting="+setting, 1)
 			if issued.Sign() > 0 {
 				r.Add("term_reward_block/issued>0", 1)
+				votes := new(big.Int)
+				for _, n := range nodes {
+					votes.Add(votes, bigOrZero(n.Votes))
+				}
+				if votes.Sign() > 0 {
+					r.Add("term_elected_term_paid_by_votes", 1)
+				}
+			}
+			for _, n := range nodes {
+				if _, ok := refunds[n.MinerAddress]; ok {
+					r.Add("term_deputy_out_of_office_refunded_at_reward", 1)
+				}
 			}
 		}
 	}
@@ -430,6 +491,31 @@ func (w *tworld) checkBlock(h uint32, letter string, parent *types.Block, obs *b
 			break
 		}
 	}
+	if !ok && hasBox && incPre != incPost {
+		// the fees of a box's sub-transactions are credited when the box is executed, the others at the
+		// end of the block: when the miner's income address changes in between, the old and the new
+		// address share the fees. The statement does not say which of the two "the" income address is:
+		// accept any split between them.
+		okWith(incPost)
+		if len(bad) <= 2 {
+			net := new(big.Int)
+			within := true
+			for _, a := range bad {
+				if a != incPre && a != incPost {
+					within = false
+				}
+				e := new(big.Int).Set(bigOrZero(exp[a]))
+				if a == incPost {
+					e.Add(e, fees)
+				}
+				net.Add(net, new(big.Int).Sub(delta[a], e))
+			}
+			if within && net.Sign() == 0 {
+				ok = true
+				r.Add("term_fees_split_between_old_and_new_income_address(allowed)", 1)
+			}
+		}
+	}
 	if !ok {
 		okWith(incPost)
 		sort.Slice(bad, func(i, j int) bool { return trole(bad[i]) < trole(bad[j]) })
@@ -491,8 +577,22 @@ func depNames(n types.DeputyNodes) string {
 	return strings.Join(l, ",")
 }
 
-func unregisteredInBlock(b *types.Block, a common.Address) bool {
+// flatTxs lists the executed transactions of a block, the sub-transactions of boxes included.
+func flatTxs(b *types.Block) types.Transactions {
+	var out types.Transactions
 	for _, tx := range b.Txs {
+		if tx.Type() == params.BoxTx {
+			if box, err := types.GetBox(tx.Data()); err == nil {
+				out = append(out, box.SubTxList...)
+			}
+		}
+		out = append(out, tx)
+	}
+	return out
+}
+
+func unregisteredInBlock(b *types.Block, a common.Address) bool {
+	for _, tx := range flatTxs(b) {
 		if tx.From() == a && isUnregisterTx(tx) {
 			return true
 		}
@@ -501,7 +601,7 @@ func unregisteredInBlock(b *types.Block, a common.Address) bool {
 }
 
 func paidFeeInBlock(b *types.Block, a common.Address) bool {
-	for _, tx := range b.Txs {
+	for _, tx := range flatTxs(b) {
 		if tx.GasPayer() == a && tx.GasUsed() > 0 {
 			return true
 		}
@@ -574,7 +674,7 @@ func (w *tworld) applyRewardCall(h uint32, c *rewardCall, failed bool, r *core.R
 	if predicted == failed {
 		r.Add("term_set_reward_outcome_differs_from_rule(not asserted)", 1)
 		if r.Counters["term_set_reward_outcome_differs_from_rule(not asserted)"] <= 3 {
-			r.Note("phase T: set-reward term=%d value=%s by %s at height %d: rule predicts success=%v, block says failed=%v", c.term, c.value, trole(c.from.Addr), h, predicted, failed)
+			r.Note("phase T: set-reward outcome differs from the rule || term=%d value=%s by %s at height %d: rule predicts success=%v, block says failed=%v", c.term, c.value, trole(c.from.Addr), h, predicted, failed)
 		}
 	}
 	if failed {
@@ -594,13 +694,30 @@ func (w *tworld) applyRewardCall(h uint32, c *rewardCall, failed bool, r *core.R
 func (w *tworld) refundTiming(h uint32, b *types.Block, nameByHash map[common.Hash]string, pre, post map[common.Address]acctView, refunds map[common.Address]*big.Int, r *core.Result, inWindow bool) {
 	predicted := map[common.Address]bool{}
 	// immediate refunds of this block's unregister transactions
-	for _, tx := range b.Txs {
-		if !isUnregisterTx(tx) {
+	st := map[common.Address]string{}
+	for _, tx := range flatTxs(b) {
+		if tx.Type() != params.RegisterTx {
 			continue
 		}
+		from := tx.From()
+		if _, ok := st[from]; !ok {
+			st[from] = pre[from].isCand
+		}
+		was := st[from]
+		if was == "" {
+			st[from] = types.IsCandidateNode
+			if isUnregisterTx(tx) {
+				st[from] = types.NotCandidateNode
+			}
+			continue
+		}
+		if was != types.IsCandidateNode || !isUnregisterTx(tx) {
+			continue
+		}
+		st[from] = types.NotCandidateNode
 		var k *node.Key
 		for _, c := range tCandidates {
-			if c.Addr == tx.From() {
+			if c.Addr == from {
 				k = c
 			}
 		}
@@ -627,7 +744,7 @@ func (w *tworld) refundTiming(h uint32, b *types.Block, nameByHash map[common.Ha
 			key := fmt.Sprintf("term_refund_timing_differs_from_rule(not asserted)/%s/predicted=%v", heightClass(h), predicted[k.Addr])
 			r.Add(key, 1)
 			if r.Counters[key] <= 2 {
-				r.Note("phase T: refund timing: block %d (%s) %s: rule predicts refund=%v, observed=%v", h, heightClass(h), trole(k.Addr), predicted[k.Addr], got)
+				r.Note("phase T: refund timing differs from the rule (%s: predicted=%v observed=%v) || block %d %s in %v", heightClass(h), predicted[k.Addr], got, h, trole(k.Addr), w.hist)
 			}
 		}
 	}
